@@ -278,12 +278,17 @@ func ZZ_C16_Missing(shape, which int) {
 			{Name: "b", Type: "uint256", Column: "c_b"},
 			{Name: "c", Type: "uint256", Column: "c_c"}}}
 		ig.Block = []dig.BlockData{{Name: "log_addr", Column: "addr"}, {Name: "block_time", Column: "bt"}}
-		missing := []string{"c_b", "c_c", "bt"}[which-3]
+		missing := []string{"c_b", "c_c", "bt", "", "", "", "", "", ""}[which-3]
 		for _, c := range []string{"c_a", "c_b", "c_c", "addr", "bt"} {
 			if c != missing {
 				ig.Table.Columns = append(ig.Table.Columns, wpg.Column{Name: c, Type: "bytea"})
 			}
 		}
+	}
+	if which >= 6 {
+		// an identity field declared under another column name that the table lacks
+		id := []string{"tx_idx", "block_num", "log_idx", "src_name", "ig_name", "abi_idx"}[which-6]
+		ig.Block = append(ig.Block, dig.BlockData{Name: id, Column: "idc"})
 	}
 	switch which {
 	case 0: // drop the column of the first user field
